@@ -482,13 +482,14 @@ func (u *upstream) redirect(r redirection) {
 	switch r.kind {
 	case MOVED:
 		u.stats.Counter("moved").Inc()
+		r.req.asking = false
 		u.MakeRequestToHost(r.addr, r.req)
 	case ASK:
-		askingReq := newSimpleRequest(newArray(
-			*newBulkString(ASKING),
-		))
-		u.MakeRequestToHost(r.addr, askingReq)
-		vhook.At("redis.upstream.ask.between")
+		// NOTE: ASKING only counts for the very next command of the same
+		// connection. Sent as a request of its own, the requests of other
+		// sessions could get in between and use it up, so the writer of the
+		// backend client sends it together with the request.
+		r.req.asking = true
 		u.MakeRequestToHost(r.addr, r.req)
 	}
 }
@@ -813,6 +814,23 @@ func (c *client) loopWrite() {
 				}
 			}
 			continue
+		}
+
+		if req.asking {
+			req.asking = false
+			askingReq := newSimpleRequest(newArray(
+				*newBulkString(ASKING),
+			))
+			if err = c.enc.Encode(askingReq.Body()); err != nil {
+				goto FAIL
+			}
+			select {
+			case <-c.quit:
+				req.SetResponse(newError(backendExited))
+				return
+			case c.processingReqs <- askingReq:
+			}
+			vhook.At("redis.upstream.ask.between")
 		}
 
 		err = c.enc.Encode(req.Body())
